@@ -6,3 +6,6 @@ import UnicLocale.Model.Ext
 import UnicLocale.Model.Locale
 import UnicLocale.Model.Likely
 import UnicLocale.Model.Ops
+import UnicLocale.Model.Cmp
+import UnicLocale.Spec.Inv
+import UnicLocale.Spec.TablesWF
